@@ -97,7 +97,27 @@ pub fn case(idx: u64, seed: u64, p: &Params, o: &mut CaseOut) {
     if part == 0 {
         // next_f64 lies in [0, 1)
         let (x, y) = (r.next(), r.next());
-        let s = *r.pick(&[0u64, 1, 1 << 63, u64::MAX, x, y]);
+        let mut s = *r.pick(&[0u64, 1, 1 << 63, u64::MAX, x, y]);
+        if r.chance(0.5) {
+            // a seed whose first raw output is an extreme value
+            let target = *r.pick(&crate::rng::EXTREME_OUTPUTS);
+            s = crate::rng::seed_for_first_output(target);
+            let first = Xoshiro256StarStar::new(s).next();
+            if first == Some(target) {
+                o.bump("crafted_seed_hits_target");
+            } else {
+                // the generator no longer is the published one: only the interval check below applies
+                o.bump("crafted_seed_misses_target");
+            }
+            // p = 1 must give all arcs whatever the draw
+            let n = r.range(2, 6);
+            let want = n * (n - 1);
+            o.check(AdjacencyList::erdos_renyi(n, 1.0, s).size() == want, "AdjacencyList::erdos_renyi:missing-arcs-at-p=1", || format!("order {n} seed {s}"));
+            o.check(AdjacencyMatrix::erdos_renyi(n, 1.0, s).size() == want, "AdjacencyMatrix::erdos_renyi:missing-arcs-at-p=1", || format!("order {n} seed {s}"));
+            o.check(EdgeList::erdos_renyi(n, 1.0, s).size() == want, "EdgeList::erdos_renyi:missing-arcs-at-p=1", || format!("order {n} seed {s}"));
+            o.check(AdjacencyMap::erdos_renyi(n, 1.0, s).size() == want, "AdjacencyMap::erdos_renyi:missing-arcs-at-p=1", || format!("order {n} seed {s}"));
+            o.check(AdjacencyList::erdos_renyi(n, 0.0, s).size() == 0 && EdgeList::erdos_renyi(n, 0.0, s).size() == 0, "erdos_renyi:arcs-at-p=0", || format!("order {n} seed {s}"));
+        }
         let mut g = Xoshiro256StarStar::new(s);
         let draws = p.usize("draws", 20000);
         let (mut lo, mut hi) = (1.0f64, 0.0f64);
